@@ -339,6 +339,16 @@ def run_property(prop, tier):
     ctx.log["path_enumeration_loop_bound"] = flow.DEPTH
     mod = importlib.import_module("rules.props." + prop.lower())
     mod.run(ctx)
+    if tier == "thorough":
+        # independent cross-reference over the files the property is anchored in
+        from . import common
+        files = []
+        for line in open(os.path.join(VERIF, "properties.jsonl")):
+            pj = json.loads(line)
+            if pj["id"] == prop:
+                files = [os.path.basename(x) for x in pj.get("anchors", {}).get("files", [])]
+        if files:
+            ctx.step(common.tidy_xref, ctx, prop + ".tidy", files)
     return finish(ctx, mod, t0, n_patterns, units)
 
 
